@@ -3,6 +3,7 @@ package store
 import (
 	"encoding/json"
 	"fmt"
+	"github.com/buildbarn/bb-storage/pkg/blobstore"
 	"io"
 	"os"
 	"path/filepath"
@@ -44,7 +45,7 @@ func TestSector(t *testing.T) {
 				if r := recover(); r != nil {
 					o["panic"] = fmt.Sprint(r)
 					if _, ok := o["snaps"]; !ok {
-						o["snaps"], o["offsets"], o["errors"] = []any{map[string]any{"flushed": []int{}, "dev": []any{}}}, []int{}, []string{}
+						o["snaps"], o["offsets"], o["errors"], o["reads"] = []any{map[string]any{"flushed": []int{}, "dev": []any{}}}, []int{}, []string{}, []string{}
 					}
 				}
 			}()
@@ -55,7 +56,7 @@ func TestSector(t *testing.T) {
 				}
 				sectors := (total+sc.S-1)/sc.S + 1
 				dev := sim.NewDevice(sc.S, sectors)
-				alloc := local.NewBlockDeviceBackedBlockAllocator(dev, rawFactory{}, sc.S, int64(sectors), 1, fmt.Sprintf("sector%d", n))
+				alloc := local.NewBlockDeviceBackedBlockAllocator(dev, blobstore.CASReadBufferFactory, sc.S, int64(sectors), 1, fmt.Sprintf("sector%d", n))
 				blk, _, err := alloc.NewBlock()
 				if err != nil {
 					panic(err)
@@ -133,6 +134,24 @@ func TestSector(t *testing.T) {
 				}
 				wg.Wait()
 				o["snaps"], o["offsets"], o["errors"] = snaps, offsets, errs
+				// read every object back through the block, validated against its digest, as the store would
+				reads := make([]string, nobj)
+				for k := 1; k <= nobj; k++ {
+					content := make([]byte, sc.Sizes[k-1])
+					for i := range content {
+						content[i] = byte(k*16 + i + 1)
+					}
+					data, err := blk.Get(DigestOf("", content), int64(offsets[k-1]), int64(sc.Sizes[k-1]), func(bool) {}).ToByteSlice(1 << 20)
+					switch {
+					case err != nil:
+						reads[k-1] = "ERR " + err.Error()
+					case string(data) != string(content):
+						reads[k-1] = "WRONGDATA"
+					default:
+						reads[k-1] = "ok"
+					}
+				}
+				o["reads"] = reads
 				blk.Release()
 			})
 		}()
